@@ -5,7 +5,10 @@ import math
 
 import numpy as np
 
-from mc.common2d import Reg, display_map, expected_display, std_pairings, with_subtotals
+from cr.cube.cube import Cube
+
+from mc.common2d import Reg, display_map, expected_display, std_pairings, transforms_for, with_subtotals
+from mc.model import tabulate
 from mc.compare import arr_bytes, first_diff, num_eq, to_list
 from mc.engine import Res, digest, viol
 from mc.engine import Space
@@ -134,6 +137,13 @@ def check(space, state):
                     V.append(viol("strand.sum_to_one", "table proportions of all base rows sum to %r" % tot))
             outs.append(arr_bytes(tp))
             nontrivial = nontrivial or any(c > 0 for c in wc)
+            # order-of-reads guard: population outputs (all ones on a categorical-date strand) read FIRST on an
+            # untouched strand must leave the proportions what they are
+            fresh = Cube(tabulate(sch, data), transforms=transforms_for(cfg), population=1000).partitions[0]
+            for first in ("population_counts", "population_counts_moe"):
+                getattr(fresh, first)
+            cmp("strand.table_proportions:after_population_reads", fresh.table_proportions, exp)
+            cmp("strand.table_percentages:after_population_reads", fresh.table_percentages, [100 * x for x in exp])
             continue
         o = with_subtotals(orc, cfg)
         a = o.all(True)
